@@ -300,7 +300,7 @@ func c12Judge(text string, env *numgen.Env, cc *command.Compiler) (out c12Outcom
 
 func TestC12(t *testing.T) {
 	c := evid.New("C12")
-	c.Rule = "three generators: (1) typed programs loosened at the AST level (any expression in any position, portions that do not add up, unbounded sources anywhere, save/print/fail, extra or duplicated variables with meta/balance origins) with loosened environments (missing / extraneous / malformed bindings and metadata, negative and huge balances); (2) token-level mutation of program text (delete, duplicate, swap, replace by hostile tokens incl. CR, NUL, multi-byte runes, huge numbers, comment markers; truncate); (3) splices of two programs. Oracle: no panic in compile / SetVarsFromJSON / ResolveResources / ResolveBalances / Run nor in rendering the returned error; termination within a watchdog; A-B-A: the same input gives the same outcome after an unrelated script ran through the shared compilation cache, and the unrelated script is unaffected; a quarter of the inputs are also submitted to a long-lived Commander (model store with the history left by the earlier inputs): no panic, and a plain transaction still commits afterwards. Non-trivial = the text passes the parser and compiler (the VM stages are reached); distinct by script text + environment."
+	c.Rule = "generators: (0) revisit: a typed program extended by 2-4 statements that save (all / an amount), credit and debit one and the same account and asset; (1) typed programs loosened at the AST level (any expression in any position, portions that do not add up, unbounded sources anywhere, save/print/fail, extra or duplicated variables with meta/balance origins) with loosened environments (missing / extraneous / malformed bindings and metadata, negative and huge balances); (2) token-level mutation of program text (delete, duplicate, swap, replace by hostile tokens incl. CR, NUL, multi-byte runes, huge numbers, comment markers; truncate); (3) splices of two programs. Oracle: no panic in compile / SetVarsFromJSON / ResolveResources / ResolveBalances / Run nor in rendering the returned error; termination within a watchdog; A-B-A: the same input gives the same outcome after an unrelated script ran through the shared compilation cache, and the unrelated script is unaffected; a quarter of the inputs are also submitted to a long-lived Commander (model store with the history left by the earlier inputs): no panic, and a plain transaction still commits afterwards. Non-trivial = the text passes the parser and compiler (the VM stages are reached); distinct by script text + environment."
 	c.Assumptions = []string{"a watchdog expiry (20 s, re-run alone with 60 s) is a hang only if it repeats; a single expiry is counted as discarded"}
 	cfg := numgen.GenCfg{MaxDepth: 2, MaxStmts: 3}
 	cc := command.NewCompiler(64)
@@ -311,7 +311,7 @@ func TestC12(t *testing.T) {
 	engineRuns := 0
 	runProp(t, c, func(rt *rapid.T) {
 		cs := numgen.GenTyped(rt, cfg)
-		mode := rapid.SampledFrom([]string{"typed", "loose-ast", "loose-ast", "loose-ast", "loose-env", "token-mut", "token-mut", "splice", "deep"}).Draw(rt, "mode")
+		mode := rapid.SampledFrom([]string{"typed", "loose-ast", "loose-ast", "loose-ast", "loose-env", "token-mut", "token-mut", "splice", "deep", "revisit"}).Draw(rt, "mode")
 		text := cs.Text
 		switch mode {
 		case "loose-ast":
@@ -329,6 +329,37 @@ func TestC12(t *testing.T) {
 			cut := rapid.IntRange(0, len(text)).Draw(rt, "cut")
 			cut2 := rapid.IntRange(0, len(other.Text)).Draw(rt, "cut2")
 			text = text[:cut] + other.Text[cut2:]
+		case "revisit":
+			// one account is saved, credited and debited within the same script: every VM structure that
+			// tracks a balance is written several times for the same (account, asset)
+			acc := rapid.SampledFrom([]string{"a", "b", "users:001"}).Draw(rt, "rvAcc")
+			asset := rapid.SampledFrom([]string{"USD", "EUR/2", "COIN"}).Draw(rt, "rvAsset")
+			if cs.Env.Balances[acc] == nil {
+				cs.Env.Balances[acc] = map[string]*big.Int{}
+			}
+			cs.Env.Balances[acc][asset] = big.NewInt(int64(rapid.IntRange(0, 50).Draw(rt, "rvBal")))
+			mon := func(n int) numgen.Expr {
+				return numgen.LitMonetary{Asset: numgen.LitAsset{Name: asset}, Amount: big.NewInt(int64(n))}
+			}
+			var extra []numgen.Stmt
+			for i, n := 0, rapid.IntRange(2, 4).Draw(rt, "rvN"); i < n; i++ {
+				switch rapid.IntRange(0, 3).Draw(rt, "rvKind") {
+				case 0:
+					extra = append(extra, numgen.Save{AllAsset: numgen.LitAsset{Name: asset}, Acc: numgen.LitAccount{Name: acc}})
+				case 1:
+					extra = append(extra, numgen.Save{Amount: mon(rapid.IntRange(0, 60).Draw(rt, "rvSave")), Acc: numgen.LitAccount{Name: acc}})
+				case 2:
+					extra = append(extra, numgen.Send{Amount: mon(rapid.IntRange(0, 30).Draw(rt, "rvIn")), Src: numgen.SrcAccount{Acc: numgen.LitAccount{Name: "world"}}, Dest: numgen.DestAccount{Acc: numgen.LitAccount{Name: acc}}})
+				default:
+					extra = append(extra, numgen.Send{Amount: mon(rapid.IntRange(0, 30).Draw(rt, "rvOut")), Src: numgen.SrcAccount{Acc: numgen.LitAccount{Name: acc}}, Dest: numgen.DestAccount{Acc: numgen.LitAccount{Name: "b"}}})
+				}
+			}
+			if rapid.Bool().Draw(rt, "rvFront") {
+				cs.Prog.Stmts = append(extra, cs.Prog.Stmts...)
+			} else {
+				cs.Prog.Stmts = append(cs.Prog.Stmts, extra...)
+			}
+			text = numgen.Render(cs.Prog, cs.Layout)
 		case "deep":
 			depth := rapid.IntRange(10, 60).Draw(rt, "depth")
 			src := "@a"
